@@ -61,6 +61,18 @@ def main():
                 args = [a for a in parts[1:]]
                 if "--no-proof-search" not in args: args.insert(1, "--no-proof-search")
                 jobs.append((args, d))
+        # external tasks whose user guide declares several predicates that no program mentions
+        ext = [
+            ("out(X) :- in(X).", "out(X) :- in(X), not not in(X).", "input: in/1. output: out/1. output: o2/1. output: o3/0. output: o4/2. output: o5/1. output: o6/3. input: i2/1. input: i3/0."),
+            ("out(X) :- in(X), not aux(X). aux(X) :- in(X), X > 1.", "aux(X) :- in(X), X <= 1. out(X) :- aux(X).", "input: in/1. output: out/1. output: zz/1. output: yy/1. output: xx/1. output: ww/1."),
+            ("p(a). p(b). p(c). p(d). q(X) :- p(X), X != e.", "p(d). p(c). p(b). p(a). q(X) :- p(X), X != f.", "output: p/1. output: q/1. output: r1/0. output: r2/0. output: r3/0. output: r4/0."),
+        ]
+        for i, (l, r, u) in enumerate(ext):
+            d = f"{base}/ext_{i}"; os.mkdir(d)
+            open(f"{d}/a.lp", "w").write(l + "\n"); open(f"{d}/b.lp", "w").write(r + "\n"); open(f"{d}/t.ug", "w").write(u + "\n")
+            for flags in ([], ["--decomposition", "independent"], ["--no-simplify", "--no-eq-break"]):
+                jobs.append((["verify", "--equivalence", "external", "--no-proof-search", "--save-problems", "$OUT"] + flags + ["a.lp", "b.lp", "t.ug"], d))
+            jobs.append((["verify", "--equivalence", "strong", "--no-proof-search", "--save-problems", "$OUT", "a.lp", "b.lp"], d))
         run.extra["determinism_commands"] = len(jobs)
         def do(job):
             args, cwd = job
